@@ -270,15 +270,20 @@ def _sqlite(check: Check):
   pp = bld.method('add_many').nested('prepare_parameters')
   pff = FuncFlow.of(repo, pp)
   check.analysed(pp)
-  ok_w = False
-  data_name = None
-  for ds in pff.rd.defs_at.values():
-    for d in ds:
-      v = d.value
-      if isinstance(v, ast.Call) and pff.ext(v.func) == 'zlib.compress' and v.args and isinstance(v.args[0], ast.Call) and wmean.repo_fn(
-          pff, v.args[0]) == f'{SER}:msgpack_serialize':
-        ok_w = True
-        data_name = d.name
+  def compress_call(e):
+    for v in pff.expand(e):
+      if isinstance(v, ast.Call) and pff.ext(v.func) == 'zlib.compress' and v.args:
+        for w in pff.expand(v.args[0]):
+          if isinstance(w, ast.Call) and wmean.repo_fn(pff, w) == f'{SER}:msgpack_serialize' and w.args:
+            return v, w
+    return None
+  ret_elts = []
+  for _, rv in pff.returns():
+    for y in pff.expand(rv):
+      if isinstance(y, ast.Tuple):
+        ret_elts = list(y.elts)
+  wr = compress_call(ret_elts[1]) if len(ret_elts) == 3 else None
+  ok_w = wr is not None
   check.ob('R-SIB.sqlite', pp, 'zlib.compress(msgpack_serialize(x)) / msgpack_deserialize(zlib.decompress(b))', ok_w and ok_r,
            f'writer (ok={ok_w}) and default reader (ok={ok_r}) are inverse compositions')
   # default parser of SQLiteFederatedData.new is that reader
@@ -293,10 +298,6 @@ def _sqlite(check: Check):
     if isinstance(x, ast.Constant) and isinstance(x.value, str) and 'CREATE TABLE' in x.value:
       create = x.value
   cols = re.findall(r'^\s*(\w+)\s+(?:BLOB|INTEGER|TEXT)', create, flags=re.M)
-  ret_elts = []
-  for _, rv in pff.returns():
-    if isinstance(rv, ast.Tuple):
-      ret_elts = list(rv.elts)
   p0 = pp.positional_params[0]
   def from_input(e, idx):
     return any(isinstance(x, ast.Subscript) and pff.param_of(x.value) == p0 and isinstance(x.slice, ast.Constant) and x.slice.value == idx
@@ -308,7 +309,7 @@ def _sqlite(check: Check):
     return None
   cnt_call = is_count(ret_elts[2]) if len(ret_elts) == 3 else None
   ok_cols = (cols == ['client_id', 'data', 'num_examples'] and len(ret_elts) == 3 and from_input(ret_elts[0], 0) and
-             isinstance(ret_elts[1], ast.Name) and ret_elts[1].id == data_name and cnt_call is not None)
+             wr is not None and cnt_call is not None)
   ins = any(isinstance(x, ast.Constant) and isinstance(x.value, str) and re.search(r'INSERT INTO federated_data VALUES \(\?, \?, \?\)', x.value)
             for x in ast.walk(bld.method('add_many').node))
   check.ob('R-SIB.sqlite', pp, f'CREATE TABLE {cols} / INSERT (id, data, count)', ok_cols and ins,
@@ -318,13 +319,9 @@ def _sqlite(check: Check):
   if cnt_call is not None:
     kw = {k.arg: txt(k.value) for k in cnt_call.keywords}
     ex = cnt_call.args[0] if cnt_call.args else None
-    ser_arg = None
-    for ds in pff.rd.defs_at.values():
-      for dd in ds:
-        v = dd.value
-        if isinstance(v, ast.Call) and pff.ext(v.func) == 'zlib.compress' and v.args and isinstance(v.args[0], ast.Call) and v.args[0].args:
-          ser_arg = v.args[0].args[0]
-    okn = kw.get('validate', 'True') == 'True' and ex is not None and ser_arg is not None and txt(ex) == txt(ser_arg) and from_input(ex, 1)
+    ser_arg = wr[1].args[0] if wr is not None else None
+    okn = (kw.get('validate', 'True') == 'True' and ex is not None and ser_arg is not None and from_input(ex, 1) and from_input(ser_arg, 1) and
+           {txt(v) for v in pff.expand(ex)} == {txt(v) for v in pff.expand(ser_arg)})
   check.ob('R-SIB.sqlite', pp, 'num_examples(examples, validate=True)', okn,
            'the stored size is the validated row count of the same examples that are serialised')
   # readers select the columns they unpack
